@@ -58,7 +58,31 @@ def setup():
 
     seams.install_chunk_seam()
     seams.EVICT.install()
+    import pdfminer.pdftypes as _PT
+
+    _PT.zlib = ZFAULT  # the allocation seam of the Flate decoder (transparent unless armed)
     _ready = True
+
+
+class _ZlibFault:
+    """Stands in for the zlib module inside pdfminer.pdftypes: when armed, the next decompress() fails once with
+    MemoryError (a transient allocation failure in the middle of a decode); everything else is the real module."""
+
+    armed = False
+    fired = 0
+
+    def __getattr__(self, name):
+        return getattr(zlib, name)
+
+    def decompress(self, data, *a, **k):
+        if self.armed:
+            self.armed = False
+            self.fired += 1
+            raise MemoryError("simulated: allocation failed in zlib.decompress")
+        return zlib.decompress(data, *a, **k)
+
+
+ZFAULT = _ZlibFault()
 
 
 PW_BASE = ["", "user", "owner", "a", "pass word", "pässwörd", "0123456789012345678901234567890123456789", "é", "x" * 33, "Secret-1"]
@@ -156,6 +180,9 @@ def gen_config(t, ctx):
     if len(user) > 32 or len(owner or "") > 32:
         ctx.probe("long password")
     p = t.pick([-1, -4, -3904, -44, 0xFFFFF0C0 - (1 << 32), -1852, 4, 8, 16, 0, 2147483647], "cfg.p")
+    if t.coin(40, 100, "cfg.pmask"):
+        # any combination of the permission bits 3..12 (the reserved high bits set, as writers store them)
+        p = -4096 + (t.draw(1024, "cfg.pbits") << 2)
     docid = None if t.coin(20, 100, "cfg.noid") else bytes(t.draw(256, "cfg.id") for _ in range(16))
     if docid is None:
         ctx.probe("no ID")
@@ -300,7 +327,8 @@ def run_inner(tape, ctx, item=None):
         ev = seams.draw_evict(t)
         ids = sorted(objects)
         order = t.shuffle(ids, "order") + [t.pick(ids, "order.rep") for _ in range(t.rint(0, len(ids), "order.nrep"))]
-        cfgs = "%s password; chunk=%s caching=%s evict=%s; %s" % (who, pdesc, caching, bool(ev), desc)
+        transient = t.coin(20, 100, "fault.transient")
+        cfgs = "%s password; chunk=%s caching=%s evict=%s%s; %s" % (who, pdesc, caching, bool(ev), " first-decode-fails-once" if transient else "", desc)
         ctx.seam("chunk")
         ctx.seam("evict", 1 if ev else 0)
         seams.CHUNK.policy = pol
@@ -332,6 +360,18 @@ def run_inner(tape, ctx, item=None):
                     continue
                 mism = []
                 packed = bool(pack) and i in pack
+                if transient and isinstance(objects[i], Stream) and hasattr(got, "get_data"):
+                    # a decode that fails half-way for a reason that passes (no memory): the stream object stays usable,
+                    # the next get_data() gives the content
+                    ZFAULT.armed = True
+                    try:
+                        got.get_data()
+                    except MemoryError:
+                        ctx.fault("transient MemoryError inside the first decode of a stream")
+                    except Exception as e:
+                        devs.append(Dev("C10:get_data:raise:%s@%s" % (type(e).__name__, where(e)), "object %d: %r; %s" % (i, e, cfgs)))
+                    finally:
+                        ZFAULT.armed = False
 
                 def expect(m):
                     filt = m.dict.get(b"Filter")
